@@ -7,6 +7,7 @@ import os
 import sys
 import traceback
 
+os.environ.setdefault("RUST_BACKTRACE", "0")
 HERE = os.path.dirname(os.path.abspath(__file__))
 sys.path.insert(0, HERE)
 
